@@ -133,10 +133,20 @@ func checkBuild(p *rc.Packet, autoID bool) {
 	out.Class("build/" + classOf(p))
 	// the message that was just encoded is changed through a setter and encoded again (a message is
 	// assembled once and then sent to several peers with another QoS, retain flag or identifier)
+	if n > 1<<20 {
+		return // the setters below may push a message at the size limit beyond it, which Encode rightly refuses
+	}
 	if what, pan := applySetters(m, b[:n]); what != "" {
 		if pan != nil {
 			out.Violation("c03:modify-panic:"+tn, fmt.Sprint(pan), recSummary(p))
 			return
+		}
+		if setterExpect != nil {
+			if d := diffPackets(canonical(setterExpect), canonical(libFields(m))); d != "" {
+				out.Violation("c03:setter-effect:"+tn, fmt.Sprintf("built, changed through %s: the message's fields are not what these calls produce: %s", what, d), recSummary(p))
+				return
+			}
+			out.Count("c03.setter_effect.checked", 1)
 		}
 		b4, ln4, n4, err, pan := libEncode(m)
 		want4 := rc.Encode(canonical(libFields(m)))
@@ -516,6 +526,7 @@ func reuseCheck(t byte, cur message.Message, wire []byte, detail map[string]inte
 // modifySeq and the length of the packet) and says what it did ("" = nothing applicable).
 func applySetters(m message.Message, wire []byte) (what string, pan interface{}) {
 	modifySeq++
+	setterExpect = nil
 	defer func() {
 		if r := recover(); r != nil {
 			pan = r
@@ -557,24 +568,88 @@ func applySetters(m message.Message, wire []byte) (what string, pan interface{})
 			what = fmt.Sprintf("SetQoS(%d)", q)
 		}
 	case *message.SubscribeMessage:
+		// the harness keeps its own account of what the setters are documented to do (the filters the
+		// packet carried come from the reference decoder), so that a setter that changes the wrong
+		// element is seen even though the message encodes its own, wrong, state faithfully
+		var mf [][]byte
+		var mq []byte
+		if ref, _, derr := rc.Decode(wire); derr == nil && ref.Type == rc.SUBSCRIBE {
+			for i, f := range ref.Filters {
+				mf = append(mf, append([]byte{}, f...))
+				mq = append(mq, ref.QoSs[i])
+			}
+			defer func() {
+				if pan == nil && what != "" {
+					setterExpect = &rc.Packet{Type: rc.SUBSCRIBE, ID: ref.ID, Filters: mf, QoSs: mq}
+				}
+			}()
+		}
+		modelAdd := func(f []byte, q byte) {
+			for i := range mf {
+				if bytes.Equal(mf[i], f) {
+					mq[i] = q
+					return
+				}
+			}
+			mf, mq = append(mf, append([]byte{}, f...)), append(mq, q)
+		}
+		modelRemove := func(f []byte) {
+			for i := range mf {
+				if bytes.Equal(mf[i], f) {
+					mf, mq = append(mf[:i:i], mf[i+1:]...), append(mq[:i:i], mq[i+1:]...)
+					return
+				}
+			}
+		}
 		if ts := mm.Topics(); len(ts) > 0 && len(wire)%3 == 0 {
 			// only the requested QoS of a filter the packet carried is changed
-			mm.AddTopic(append([]byte{}, ts[0]...), (mm.Qos()[0]+1)%3)
+			k := modifySeq % len(ts)
+			f, q := append([]byte{}, ts[k]...), (mm.Qos()[k]+1)%3
+			mm.AddTopic(f, q)
+			modelAdd(f, q)
 			what = "AddTopic(existing filter, other QoS)"
 			break
 		}
-		mm.AddTopic([]byte("added/by/setter"), 1)
+		mm.AddTopic([]byte("added/by/setter"), byte(modifySeq%3))
+		modelAdd([]byte("added/by/setter"), byte(modifySeq%3))
 		if ts := mm.Topics(); len(ts) > 1 && len(wire)%2 == 0 {
-			mm.RemoveTopic(append([]byte{}, ts[0]...))
+			f := append([]byte{}, ts[modifySeq%(len(ts)-1)]...) // not the last one
+			mm.RemoveTopic(f)
+			modelRemove(f)
 		}
 		what = "AddTopic/RemoveTopic"
 	case *message.SubackMessage:
 		mm.AddReturnCodes([]byte{1})
 		what = "AddReturnCodes"
 	case *message.UnsubscribeMessage:
+		var mf [][]byte
+		if ref, _, derr := rc.Decode(wire); derr == nil && ref.Type == rc.UNSUBSCRIBE {
+			for _, f := range ref.Filters {
+				mf = append(mf, append([]byte{}, f...))
+			}
+			defer func() {
+				if pan == nil && what != "" {
+					setterExpect = &rc.Packet{Type: rc.UNSUBSCRIBE, ID: ref.ID, Filters: mf}
+				}
+			}()
+		}
+		has := false
+		for _, f := range mf {
+			has = has || string(f) == "added/by/setter"
+		}
 		mm.AddTopic([]byte("added/by/setter"))
+		if !has {
+			mf = append(mf, []byte("added/by/setter"))
+		}
 		if ts := mm.Topics(); len(ts) > 1 && len(wire)%2 == 0 {
-			mm.RemoveTopic(append([]byte{}, ts[0]...))
+			f := append([]byte{}, ts[modifySeq%(len(ts)-1)]...)
+			mm.RemoveTopic(f)
+			for i := range mf {
+				if bytes.Equal(mf[i], f) {
+					mf = append(mf[:i:i], mf[i+1:]...)
+					break
+				}
+			}
 		}
 		what = "AddTopic/RemoveTopic"
 	default:
@@ -594,6 +669,10 @@ func modifyAfterDecode(t byte, wire []byte, detail map[string]interface{}) {
 }
 
 var modifySeq int
+
+// setterExpect: after applySetters, the fields the message must have by the harness's own account of
+// the setters it called (nil where it keeps none).
+var setterExpect *rc.Packet
 
 func modifyAfterDecodeInto(t byte, wire, prev []byte, detail map[string]interface{}) {
 	first := wire
@@ -625,6 +704,13 @@ func modifyAfterDecodeInto(t byte, wire, prev []byte, detail map[string]interfac
 	if pan != nil {
 		out.Violation("c03:modify-panic:"+tn, fmt.Sprint(pan), detail)
 		return
+	}
+	if setterExpect != nil {
+		if d := diffPackets(setterExpect, libFields(m)); d != "" {
+			out.Violation("c03:setter-effect:"+tn, fmt.Sprintf("decoded, changed through %s: the message's fields are not what these calls produce: %s", what, d), detail)
+			return
+		}
+		out.Count("c03.setter_effect.checked", 1)
 	}
 	b, ln, n, err, pan := libEncode(m)
 	// the fields as the message reports them after encoding (a request identifier the library had to
